@@ -23,7 +23,10 @@ RULES = {
            "insertion order and re-expressed descriptors): ==, reversed ==, is_isomorphic must be True",
     "C02": "pairs for which TLC's exhaustive search finds NO bijection must compare unequal; graphs of different classes never equal",
     "C03": "isomorphic pairs must have equal hashes; hashes recomputed in fresh interpreters with different PYTHONHASHSEED",
-    "C05": "the list yielded by vf2pp_all_isomorphisms must equal TLC's complete set of bijections, without duplicates",
+    "C05": "the list yielded by vf2pp_all_isomorphisms must equal TLC's complete set of bijections, without duplicates; the "
+           "VF2++ loop itself is a TLA+ state machine (spec/VF2.tla, model-checked exact for all graph pairs on <= 3 (quick) / "
+           "4 (thorough) atoms, all matching orders): recorded runs of the real loop are replayed step by step against it and "
+           "their yields compared with the specification's own run",
     "C06": "enantiomer() must project to Enantiomer(g) of the spec, leave the source untouched, be an involution, and equal the "
            "source exactly when TLC finds a bijection onto the mirror image",
     "C16": "pairs whose (element, neighbour elements) multisets differ (reactant/product/TS-wise for reactions) and single-unit "
@@ -135,6 +138,15 @@ def run(prop, tier):
         extra_eval += lc.get("partners", 0)
         tot["states"] += lc.get("states", 0)
         tot["generated"] += lc.get("generated", 0)
+    if prop == "C05":
+        from . import vf2trace
+        mc = vf2trace.model_check(tier)
+        tv = vf2trace.collect(tier, rep, common.seed())
+        extra["vf2_model"] = mc
+        extra["vf2_trace_validation"] = tv
+        extra_eval += tv["runs"] + tv["replayed"]
+        tot["states"] += mc["states"] + tv["states"]
+        tot["generated"] += mc["generated"] + tv["generated"]
     if prop == "C06":
         from . import edit
         ecov = edit.collect("C06", tier, rep)
